@@ -315,10 +315,39 @@ func specSliceCount(byteCount, sliceByteCount int) int {
 //@   ghost-set gLastWritePath = path
 //@   ghost-set gIOFailed = gIOFailed || result != nil
 
+// C14/C18/C20 ("success only if nothing is left damaged"): Repair may report success without
+// having written anything only if no protected file was flagged missing, hash-mismatched or of
+// wrong length when it was called; the flags themselves are never altered by Repair. (Files
+// are paired with their flags by index; that LoadFileData makes the two lists equally long is
+// not restated here, hence the min.)
+//@ pred flagged(x) = x.missing || x.hashMismatch || x.hasWrongByteCount
+//@ pred listsKept(d) = sameSlice(d.fileIntegrityInfos, old(d.fileIntegrityInfos)) && sameSlice(d.recoverySet, old(d.recoverySet))
+//@ pred flagsKept(d) = forall(q, 0, len(d.fileIntegrityInfos), flagged(d.fileIntegrityInfos[q]) == old(flagged(d.fileIntegrityInfos[q])))
+//@ func (*Decoder).newCoderAndShards
+//@   props C14 C18 C20
+//@   skip-safety
+//@   modifies nothing
+//@   ensures implies(result2 == nil, cap(result1) == 0 || fresh(result1))
+//@   loop 0
+//@     modifies nothing
+//@   loop 1
+//@     modifies nothing
+//@   loop 2
+//@     modifies nothing
+//@     invariant cap(dataShards) == 0 || fresh(dataShards)
+//@   loop 3
+//@     modifies nothing
+//@     invariant cap(dataShards) == 0 || fresh(dataShards)
+
 //@ func (*Decoder).Repair
 //@   props C02 C20 C14 C19 C18 C15
 //@   skip-safety
+//@   logical n
+//@   logical-definitional
 //@   ensures implies(gIOFailed && !old(gIOFailed), result1 != nil)
+//@   ensures @C14,C18,C20 listsKept(d)
+//@   ensures @C14,C18,C20 flagsKept(d)
+//@   ensures @C14,C18,C20 implies(result1 == nil && len(result0) == 0, forall(q, 0, min(len(d.fileIntegrityInfos), len(d.recoverySet)), !flagged(d.fileIntegrityInfos[q])))
 //@   ghost-set gRepairCalls = gRepairCalls + 1
 //@   ghost-set gRepairOK = (result1 == nil)
 //@   ghost-set gRepairNotEnough = hastype(result1, "github.com/akalin/gopar/rsec16.NotEnoughParityShardsError")
@@ -327,10 +356,28 @@ func specSliceCount(byteCount, sliceByteCount int) int {
 //@   assert-call fileIO.WriteFile : arg0 == pathJoin(pathDir(d.indexPath), decoderInputFileInfo.filename)
 //@   assert-call append : gLastWriteOK && gLastWritePath == path
 //@   ensures len(result0) == gWritesOK - old(gWritesOK)
+//@   loop 1
+//@     invariant @C14,C18,C20 listsKept(d) && gIOFailed == old(gIOFailed) && gWritesOK == old(gWritesOK)
+//@     invariant @C14,C18,C20 flagsKept(d)
+//@     invariant @C14,C18,C20 len(wasOK) == len(d.fileIntegrityInfos) && fresh(wasOK)
+//@     invariant @C14,C18,C20 forall(q, 0, rangeindex + 1, implies(wasOK[q], !flagged(d.fileIntegrityInfos[q])))
+//@   loop 2
+//@     invariant @C14,C18,C20 listsKept(d) && gIOFailed == old(gIOFailed) && gWritesOK == old(gWritesOK)
+//@     invariant @C14,C18,C20 flagsKept(d)
+//@     invariant @C14,C18,C20 len(wasOK) == len(d.fileIntegrityInfos) && fresh(wasOK) && 0 <= i && i < len(wasOK)
+//@     invariant @C14,C18,C20 forall(q, 0, i + 1, implies(wasOK[q], !flagged(d.fileIntegrityInfos[q])))
 //@   loop 3
 //@     invariant len(repairedPaths) == gWritesOK - old(gWritesOK) && gIOFailed == old(gIOFailed)
+//@     invariant @C14,C18,C20 listsKept(d) && len(wasOK) == len(d.fileIntegrityInfos) && fresh(wasOK)
+//@     invariant @C14,C18,C20 flagsKept(d)
+//@     invariant @C14,C18,C20 forall(q, 0, len(wasOK), implies(wasOK[q], !flagged(d.fileIntegrityInfos[q])))
+//@     invariant @C14,C18,C20 implies(len(repairedPaths) == 0, forall(q, 0, rangeindex + 1, !flagged(d.fileIntegrityInfos[q])))
 //@   loop 4
 //@     invariant len(repairedPaths) == gWritesOK - old(gWritesOK) && gIOFailed == old(gIOFailed)
+//@     invariant @C14,C18,C20 flagsKept(d)
+//@     invariant @C14,C18,C20 listsKept(d) && len(wasOK) == len(d.fileIntegrityInfos) && fresh(wasOK) && 0 <= i && i < len(wasOK) && !wasOK[i]
+//@     invariant @C14,C18,C20 forall(q, 0, len(wasOK), implies(wasOK[q], !flagged(d.fileIntegrityInfos[q])))
+//@     invariant @C14,C18,C20 implies(len(repairedPaths) == 0, forall(q, 0, i, !flagged(d.fileIntegrityInfos[q])))
 
 // The adapters to the real filesystem pass their arguments and results straight through.
 //@ func (defaultFileIO).WriteFile
